@@ -402,7 +402,12 @@ def renderFloat (x : Float) : List Char :=
   let fd := natDigits 10 64 fp
   (if neg then ['-'] else []) ++ natDigits 10 64 ip ++ ['.'] ++ List.replicate (6 - fd.length) '0' ++ fd
 
-def renderStr (s : List Char) : List Char := ['"'] ++ s ++ ['"']
+/-- the manual's escape sequences for the characters that cannot stand for themselves inside "...": `\\\\` `\\"` (and `\\'`,
+which is accepted inside double quotes as well but not needed there) -/
+def escChar (c : Char) : List Char :=
+  if c == '\\' then ['\\', '\\'] else if c == '"' then ['\\', '"'] else [c]
+
+def renderStr (s : List Char) : List Char := ['"'] ++ s.flatMap escChar ++ ['"']
 
 def renderVal : Val → List Char
   | .int v => renderInt v
